@@ -234,7 +234,13 @@ func d4Run(ft fataler, cfg pools.DHCP4Cfg, ops []d4Op) (*model, []string) {
 			if old == "" {
 				continue
 			}
-			nw := pick(op.T, func(x string) bool { return x != old && noLease(x) })
+			nw := ""
+			if op.V%2 == 0 { // the replacement CPE already DISCOVERed: it holds an offer of its own
+				nw = pick(op.T, func(x string) bool { return x != old && noLease(x) && m.has[x] != "" })
+			}
+			if nw == "" {
+				nw = pick(op.T, func(x string) bool { return x != old && noLease(x) })
+			}
 			if nw == "" {
 				continue
 			}
